@@ -249,7 +249,7 @@ def run_scenario(ctx, s):
                 def fault(methname, args, kwargs, counts=counts, mine=mine, i=i):
                     n = counts.get(methname, 0)
                     counts[methname] = n + 1
-                    if (methname, n) in mine:
+                    if (methname, n) in mine or (methname, -1) in mine:       # nth = -1: every call of that method fails
                         fired.append((i, methname, n))
                         return "error"
                     return None
@@ -394,6 +394,29 @@ def run_scenario(ctx, s):
         finally:
             layout.WriteBucketProxy.__init__.__defaults__ = batch_defaults
             g.close()
+
+
+def gen_allocfail(rng):
+    """tight thresholds with servers that answer get_buckets but fail allocate_buckets: the selector needs a second
+    placement round, which can allocate one share number on two servers (DESIGN 8.9)"""
+    s = Scenario()
+    s.num_servers = rng.randrange(4, 9)
+    s.n = rng.randrange(max(2, s.num_servers - 2), s.num_servers + 1)
+    s.k = rng.randrange(1, 4)
+    s.k = min(s.k, s.n)
+    s.happy = min(s.n, rng.randrange(max(1, s.num_servers - 2), s.num_servers))
+    s.size = rng.choice([100, 333, 1000])
+    s.maxseg = rng.choice([64, 128, 100000])
+    s.readonly, s.full, s.broken, s.pre_servers, s.pre_delete = [], [], [], [], 0.0
+    if rng.random() < 0.25:
+        s.pre_servers = sorted(rng.sample(range(s.num_servers), rng.randrange(1, 3)))
+    s.faults = [(f, "allocate_buckets", rng.choice([-1, -1, 0])) for f in rng.sample(range(s.num_servers), rng.choice([1, 1, 1, 2]))]
+    if rng.random() < 0.3:
+        s.faults.append((rng.randrange(s.num_servers), rng.choice(["write", "close"]), 0))
+    s.policy = rng.choice(["random", "fifo", "fifo", "lifo"])
+    s.seed = rng.randrange(1 << 30)
+    s.batch = None
+    return s
 
 
 def gen_concurrent(rng):
@@ -669,6 +692,14 @@ CORPUS = [
     _concurrent("d-second-upload-while-first-fails", "unhappy", fate="fail", num_servers=4, happy=4, k=3),
     _concurrent("d-second-upload-while-first-completes", "unhappy", fate="complete", policy="lifo", batch=40),
     _concurrent("d-second-upload-tight-grid", "unhappy", fate="timeout", num_servers=2, n=2, k=1, happy=2),
+    # C06-e: the success verdict must be taken on the tracker set that is actually pushed.  7 servers, k=2 happy=6 N=6, one
+    # server answers get_buckets but fails every allocate_buckets: a second placement round allocates some share numbers on
+    # two servers.  Unchanged tree: CHKUploader.set_shareholders asserts (DESIGN 8.9), nothing becomes visible.
+    # (changed tree: duplicates are released after the happiness test; success on a layout with happiness 3..5 < 6.)
+] + [
+    _fixed("e-second-round-duplicate-allocation-s%d" % f, "error:AssertionError", k=2, happy=6, n=6, num_servers=7, size=600,
+           maxseg=128, faults=[[f, "allocate_buckets", -1]], seed=1)
+    for f in (0, 1, 2, 3, 5)
 ]
 
 
@@ -686,6 +717,7 @@ def run(ctx):
             scen += [gen_scenario(ctx.rng) for _ in range(ctx.budget(220, 4000))]
             # concurrent-upload family (drawn after the single-upload stream, so that stream is unchanged)
             scen += [gen_concurrent(ctx.rng) for _ in range(ctx.budget(40, 800))]
+            scen += [gen_allocfail(ctx.rng) for _ in range(ctx.budget(50, 1000))]
     lines, wants, cases = [], [], []
     for s in scen:
         concurrent = getattr(s, "kind", None) == "concurrent"
